@@ -22,10 +22,17 @@ func (f *syntaxAggregateFunction) retrieve(
 	}
 
 	result := values.result
+	isDocumentArray := false
 	if !f.param.isValueGroup() {
 		if arrayParam, ok := values.result[0].([]interface{}); ok {
-			result = arrayParam
+			result, isDocumentArray = arrayParam, true
 		}
+	}
+	if !isDocumentArray {
+		// values goes back to the pool when this node returns: the function, which may keep or
+		// return the list it is given, gets a list of its own
+		result = make([]interface{}, len(values.result))
+		copy(result, values.result)
 	}
 
 	filteredValue, err := f.function(result)
